@@ -163,6 +163,17 @@ class SetWrapper(typing.MutableSet[T]):
             for v in arg:
                 self.add(v)
 
+    @classmethod
+    def _from_iterable(  # type: ignore[override]
+        cls, it: typing.Iterable[T]
+    ) -> typing.Set[T]:
+        # The binary operators inherited from collections.abc.Set (&, -, ^
+        # and the in-place forms built on them) construct their result with
+        # this hook. Subclasses take the owning node as first constructor
+        # argument, so the default cls(it) is wrong for them; like __or__,
+        # return a plain set.
+        return set(it)
+
     # begin functions for ABC
     def __contains__(self, v: object) -> bool:
         return v in self._data
